@@ -196,13 +196,23 @@ func report(r *Runner, prop, tier, evidence, known string, noReplay bool, loadT,
 		}
 	}
 	// ---- native replay ----
+	const maxValidatePerHarness = 20000
 	var cases []replayCaseOut
 	id := 0
 	validateIDs := map[int]ReplayCase{}
 	groupIDs := map[string]int{}
 	for _, name := range r.order {
 		st := r.stats[name]
-		for _, rc := range st.ReplayCases {
+		// at most maxValidatePerHarness path models per harness are re-run natively (evenly spaced):
+		// hundreds of thousands of them do not fit the replay's time limit
+		stride := 1
+		if n := len(st.ReplayCases); n > maxValidatePerHarness {
+			stride = (n + maxValidatePerHarness - 1) / maxValidatePerHarness
+		}
+		for i, rc := range st.ReplayCases {
+			if i%stride != 0 {
+				continue
+			}
 			id++
 			cases = append(cases, replayCaseOut{rc, id})
 			validateIDs[id] = rc
